@@ -684,7 +684,10 @@ struct Phase<'a> {
     filters: Box<dyn Fn(usize) -> Vec<Vec<F>> + Sync + 'a>,
 }
 
-fn run_phase(ph: &Phase, isa: u8, samples: &Samples) -> Local {
+fn run_phase(ph: &Phase, isa: u8, all_samples: &Samples) -> Local {
+    // at most two written-out cases per (box, ISA)
+    let samples = Samples::new(2);
+    let samples = &samples;
     const CHUNK: usize = 64;
     let nchunks = ph.inputs.len().div_ceil(CHUNK);
     let locals = vp_core::par::map(nchunks, |c| {
@@ -722,6 +725,9 @@ fn run_phase(ph: &Phase, isa: u8, samples: &Samples) -> Local {
     let mut total = Local::default();
     for l in locals {
         total.merge(l);
+    }
+    for s in samples.take() {
+        all_samples.push(|| s);
     }
     total
 }
@@ -764,9 +770,9 @@ pub fn run(ctx: Ctx) -> ! {
     let dy = [0.0f32, 0.0625, 0.125, 0.25, 0.5, 1.0];
     let box_a = if thorough { all_vectors(&v9, 6) } else { all_vectors(&v7, 5) };
     let box_d = all_vectors(&dy, if thorough { 7 } else { 5 });
-    let box_b = long_vectors(if thorough { 80 } else { 40 });
+    let box_b = long_vectors(if thorough { 80 } else { 48 });
     let box_c = all_vectors(&v7, 4);
-    let box_c2 = all_vectors(&v7, if thorough { 5 } else { 3 });
+    let box_c2 = all_vectors(&v7, if thorough { 5 } else { 2 });
     let chains2 = chains(2);
     let chains3 = chains(3);
 
@@ -802,7 +808,7 @@ pub fn run(ctx: Ctx) -> ! {
         },
     ];
 
-    let samples = Samples::new(12);
+    let samples = Samples::new(40);
     let mut total = Local::default();
     let mut per_phase = Vec::new();
     let isas: Vec<u8> = vec![0, 1, 2];
@@ -867,7 +873,7 @@ pub fn run(ctx: Ctx) -> ! {
             "box_A_vectors": box_a.len(),
             "box_D_values": show_vec(&dy),
             "box_D_vectors": box_d.len(),
-            "box_B_max_len": if thorough { 80 } else { 40 },
+            "box_B_max_len": if thorough { 80 } else { 48 },
             "box_B_vectors": box_b.len(),
             "box_C_vectors_len2_chains": if thorough { box_c2.len() } else { box_c.len() },
             "box_C_vectors_len3_chains": if thorough { box_c.len() } else { box_c2.len() },
